@@ -37,6 +37,13 @@ theorem decodeSerde_eq : ∀ (buf : Bool) (s : Schema) (t : TV), lenientFree s t
   | buf, .str v, t, h => by
     cases t with
     | tbl kvs => cases v <;> first | (simp [lenientFree] at h; done) | simp [decodeSerde, decode]
+    | str s =>
+      cases v with
+      | uri =>
+        simp only [lenientFree, Bool.or_eq_true, beq_iff_eq] at h
+        simp only [decodeSerde, decode, StrV.serdeNorm, StrV.norm]
+        rcases h with h | h <;> simp [h]
+      | _ => simp [decodeSerde, decode, StrV.serdeNorm]
     | _ => simp [decodeSerde, decode]
   | buf, .int, t, _ => by cases t <;> simp [decodeSerde, decode]
   | buf, .bool, t, _ => by cases t <;> simp [decodeSerde, decode]
